@@ -139,7 +139,7 @@ Inductive pstep : state -> state -> Prop :=
     pay_opt (set_last_qid (set_reqs s (reqs s ++ [q])) (q_id q)) (User (q_addr q)) Gov (q_denom q) (q_amt q) = Ok s' -> pstep s s'
 | p_payout s q to s' : get_req s (q_id q) = Some q -> payout s q to = Ok s' -> pstep s s'
 | p_ukeys s new : kg s new -> pstep s (set_ukeys s new)
-| p_aux s co pc pv pn ac ro : pstep s (set_aux s co pc pv pn ac ro)
+| p_aux s co pc pv pn ac ro rr : pstep s (set_aux s co pc pv pn ac ro rr)
 | p_movebal s a b d n s' : pay_opt s (User a) (User b) d n = Ok s' -> pstep s s'
 | p_renreq s a b : pstep s (set_reqs s (map (ren_req a b) (reqs s))).
 
@@ -175,7 +175,7 @@ Definition allowed_of (s : state) (o : op) : Z -> addr -> Prop :=
   | OHandle v qid true => fun id w => w = v /\ exists q, get_req s qid = Some q /\ q_ver q = v /\ In id (q_rids q)
   | _ => fun _ _ => False
   end.
-Definition mv_of (o : op) : Prop := match o with ORotate _ _ _ => True | _ => False end.
+Definition mv_of (o : op) : Prop := match o with ORotate _ _ _ | ORotateRR _ _ _ => True | _ => False end.
 (* the guard of the single-property path (EnsureUniqueKeys) *)
 Definition kgG (s : state) (new : string) : Prop := ensure_unique_keys (kv_of s) (ukeys s) new = ""%string.
 Definition kgT (s : state) (new : string) : Prop := True.
@@ -294,22 +294,31 @@ Proof.
   - inv Hb0. constructor.
 Qed.
 
-Lemma rotate_psteps allowed kg a b ok s s' : rotate_msg a b ok s = Ok s' -> psteps allowed kg True s s'.
+Lemma rotate_core_psteps allowed kg a b s s' : rotate_core a b s = Ok s' -> psteps allowed kg True s s'.
 Proof.
-  unfold rotate_msg.
-  destruct (negb (mem a (secrets s))); [discriminate|]. destruct (negb ok); [discriminate|].
-  destruct (mem b (rotated s)); [discriminate|]. destruct (negb (mem a (accts s))); [discriminate|].
-  destruct (mem b (accts s)); [discriminate|]. intros H. bind_inv H.
-  destruct (negb (all_recs_exist a0 (idx_of a0 a))); [discriminate|]. bind_inv Hb. inv Hb0.
-  eapply psteps_trans; [eapply move_bal_psteps; eauto|].
+  unfold rotate_core. intros H.
+  destruct (negb (all_recs_exist s (idx_of s a))); [discriminate|]. bind_inv H. inv Hb.
   eapply psteps_trans.
-  - eapply foldM_psteps; [|exact Ha0]. intros s0 e s0' _. unfold move_rec.
+  - eapply foldM_psteps; [|exact Ha]. intros s0 e s0' _. unfold move_rec.
     destruct (get_rec s0 (snd e)) as [x|] eqn:Ex; [|discriminate]. intros H.
     pose proof (get_rec_In _ _ _ Ex) as [_ Ei]. rewrite <- Ei in H. destruct (del_fix s0).
     + eapply ps_step; [apply (p_delidx _ _ _ s0 (r_owner x, r_key x))|]. apply psteps_one.
       eapply (p_move _ _ _ _ x b); [|exact H|exact I]. change (get_rec s0 (r_id x) = Some x). eapply get_rec_self; eauto.
     + apply psteps_one. eapply (p_move _ _ _ s0 x b); [eapply get_rec_self; eauto|exact H|exact I].
-  - eapply ps_step; [apply (p_renreq _ _ _ a1 a b)|]. apply psteps_one. apply p_aux.
+  - eapply ps_step; [apply (p_renreq _ _ _ a0 a b)|]. apply psteps_one. apply p_aux.
+Qed.
+Lemma rotate_psteps allowed kg a b ok s s' : rotate_msg a b ok s = Ok s' -> psteps allowed kg True s s'.
+Proof.
+  unfold rotate_msg. destruct (mem a (rrtok s)); [discriminate|].
+  destruct (negb (mem a (secrets s))); [discriminate|]. destruct (negb ok); [discriminate|].
+  destruct (mem b (rotated s)); [discriminate|]. destruct (negb (mem a (accts s))); [discriminate|].
+  destruct (mem b (accts s)); [discriminate|]. intros H. bind_inv H.
+  eapply psteps_trans; [eapply move_bal_psteps; eauto|]. eapply rotate_core_psteps; eauto.
+Qed.
+Lemma rotate_rr_psteps allowed kg a b ok s s' : rotate_rr a b ok s = Ok s' -> psteps allowed kg True s s'.
+Proof.
+  unfold rotate_rr. destruct (negb (mem a (rrtok s))); [discriminate|]. destruct (negb ok); [discriminate|].
+  destruct (mem b (rotated s)); [discriminate|]. apply rotate_core_psteps.
 Qed.
 
 Theorem step_psteps (kg : state -> string -> Prop) s o s' :
@@ -329,7 +338,7 @@ Proof.
     eapply ps_step; [apply p_aux|]. eapply register_keeper_psteps; eauto.
   - unfold claim_validator in H. destruct (negb (mem a (perm_v s))); [discriminate|].
     eapply register_keeper_psteps; eauto.
-  - unfold set_keys_prop in H.
+  - unfold set_keys_prop in H. destruct (String.eqb new (ukeys s)); [discriminate|].
     destruct (negb (String.eqb (ensure_old_unique_keys_not_removed (ukeys s) new) "")); [discriminate|].
     destruct (negb (String.eqb (ensure_unique_keys (kv_of s) (ukeys s) new) "")) eqn:E; [discriminate|].
     destruct (ukeys_valid new); [|discriminate]. inv H. apply psteps_one. apply p_ukeys. apply Hk.
@@ -342,6 +351,8 @@ Proof.
       unfold kgG. apply negb_false_iff in E. apply String.eqb_eq in E. exact E.
     + destruct (ukeys_valid new); [|discriminate]. inv H. apply psteps_one. apply p_ukeys. destruct Hk as [_ Hk]. apply Hk; auto.
   - eapply rotate_psteps; eauto.
+  - eapply rotate_rr_psteps; eauto.
+  - inv H. constructor.
 Qed.
 
 (* ================================================================ invariant 1+2: keys are stored folded, unique keys are unique *)
@@ -808,10 +819,10 @@ Definition others_untouched (a : addr) (s s' : state) : Prop :=
   (forall r', In r' (recs s') -> r_owner r' <> a -> exists r, In r (recs s) /\ same_core r r').
 Definition owner_frame (s : state) (o : op) (s' : state) : Prop :=
   match o with
-  | ORotate a b _ =>          (* a proven rotation moves a's records unchanged to b *)
+  | ORotate a b _ | ORotateRR a b _ =>          (* a proven rotation moves a's records unchanged to b *)
       (forall r, In r (recs s) -> exists r', In r' (recs s') /\ r' = if r_owner r =? a then with_owner r b else r) /\
       (forall r', In r' (recs s') -> exists r, In r (recs s) /\ r_id r = r_id r')
-  | OSetKeysProp _ | OSetKeysMsg _ _ => recs s' = recs s
+  | OSetKeysProp _ | OSetKeysMsg _ _ | OGenesis => recs s' = recs s
   | _ => others_untouched (signer o) s s'
   end.
 
@@ -819,7 +830,7 @@ Definition owner_frame (s : state) (o : op) (s' : state) : Prop :=
 Definition bal0 : acct -> string -> Z := fun x d => match x with User _ => 5000 | Gov => 0 end.
 (* the OLD variant of the code: [del_fix = false] (DeleteIdentityRecordById left the index entry
    behind, before commit 9fe909f) and [msg_guard = false] (whole-record write unguarded) *)
-Definition s0 : state := init_state "moniker,username" 0 [0] [1] [6] [0; 1; 2; 3] [0; 1; 2; 3] bal0 false false.
+Definition s0 : state := init_state "moniker,username" 0 [0] [1] [6] [0; 1; 2; 3] [0; 1; 2; 3] bal0 false false [].
 
 Lemma KU_s0 : KU s0.
 Proof. split; intros r; simpl; tauto. Qed.
@@ -920,12 +931,12 @@ Proof.
   - intros r' Hr. auto.
   - eapply WR_trans; [eapply pstep_WR; eauto|auto].
 Qed.
-Definition approving (o : op) : bool := match o with OHandle _ _ true => true | ORotate _ _ _ => true | _ => false end.
+Definition approving (o : op) : bool := match o with OHandle _ _ true => true | ORotate _ _ _ | ORotateRR _ _ _ => true | _ => false end.
 Lemma written_records_unverified s o s' : approving o = false -> step s o = Ok s' -> WR s s'.
 Proof.
   intros A H. eapply (psteps_WR (allowed_of s o) kgT (mv_of o)).
   - destruct o; simpl in *; try tauto. destruct yes; [discriminate|tauto].
-  - destruct o; simpl in *; try tauto. discriminate.
+  - destruct o; simpl in *; try tauto; discriminate.
   - eapply step_psteps; [|exact H]. destruct o; simpl; unfold kgT; auto.
 Qed.
 
